@@ -21,6 +21,7 @@ let op_of s = match String.split_on_char ':' s with
   | ["e"] -> OExhaust
   | ["l"; n] -> OReadLine (optn n)
   | ["L"; n] -> OReadLines (optn n)
+  | ["it"] -> OIter
   | _ -> failwith "bad op"
 let sched_of s = if s = "-" then [] else
   List.map (fun t -> if t = "F" then RFail else RBytes (n_of_int (int_of_string t))) (String.split_on_char ',' s)
